@@ -2,16 +2,18 @@
 //@ fn tlv::SerializedTlvStream::to_bytes
 //@ returns r
 //@ implicit [C06,C13,C18]
+//@ bind out /let mut (\w+) = bytes::BytesMut::new\(\);/
+//@ bind rec /for (\w+) in /
 //@ ensures#concatenation_of_record_encodings [C13,C18]
       r@ == enc_all(s.view_entries())
 //@ loop 0
 //@ iter it
 //@ invariant#prefix_encoded [C18,C13]
-      b.mview() == enc_all(s.view_entries().take(it.index@)) && it.index@ <= s.view_entries().len()
+      $out.mview() == enc_all(s.view_entries().take(it.index@)) && it.index@ <= s.view_entries().len()
       && s.view_entries() == entries_view(s.entries@)
 //@ proof loop_end 0
       lemma_enc_all_push(s.view_entries(), it.index@);
-      assert(s.view_entries()[it.index@].value == e.value@);
-//@ proof before_stmt /^b\.to_vec\(\)/
+      assert(s.view_entries()[it.index@].value == $rec.value@);
+//@ proof before_stmt /^$out\.to_vec\(\)/
       assert(s.view_entries().take(s.view_entries().len() as int) =~= s.view_entries());
 //@ end
